@@ -91,6 +91,8 @@ type c11Oracle struct {
 	cur        *c11Round
 
 	acceptedTxs, decided, ended, blocks int
+	// successInEpoch: a round was finalized normally since the last committee change.
+	successInEpoch bool
 }
 
 func c11Violation(kind, cause, detail string) *core.Violation {
@@ -547,12 +549,21 @@ func (o *c11Oracle) judge(s *Sim, h int64, nb *block.Header, timerExpired bool) 
 			}
 			s.St.Inc("probe.c11.round_failed." + cause)
 			s.St.Inc("probe.c11.rounds_failed")
+			if !o.successInEpoch {
+				// (the per-epoch liveness statistics have not been touched by a success yet)
+				s.St.Inc("probe.c11.round_failed_before_first_success_in_epoch")
+				if timerExpired {
+					s.St.Inc("probe.c11.round_failed_on_timer_before_first_success_in_epoch")
+				}
+			}
 		case block.EpochTransition:
+			o.successInEpoch = false
 			s.St.Inc("probe.c11.epoch_transition_blocks")
 			if r.accepted > 0 {
 				s.St.Inc("probe.c11.epoch_transition_cut_a_round_with_votes")
 			}
 		case block.Suspended:
+			o.successInEpoch = false
 			s.St.Inc("probe.c11.suspended_blocks")
 		}
 		return nil
@@ -619,6 +630,7 @@ func (o *c11Oracle) judge(s *Sim, h int64, nb *block.Header, timerExpired bool) 
 		}
 	}
 	s.St.Inc("probe.c11.rounds_finalized")
+	o.successInEpoch = true
 	o.ended++
 	if chosenRank > 0 {
 		s.St.Inc("probe.c11.finalized_scheduler_rank_gt0")
